@@ -182,6 +182,18 @@ def quoted_string_strip(ctx: Ctx) -> None:
     ctx.check(len(r) == 1 and unparse(r[0].value).endswith(".value[1:-1]"), "parse_directive_with_quoted_string", "strips exactly the two quote characters")
 
 
+def binary_symbols(ctx: Ctx) -> None:
+    repo = ctx.repo
+    pa = repo.func(NODES, "BinaryNode.pc_after")
+    pc = pa.params()[1]
+    labels = [c for c in calls_in(pa.node, suffix="add_label")]
+    syms = [c for c in calls_in(pa.node, suffix="add_symbol")]
+    ok_l = len(labels) == 1 and [unparse(a) for a in labels[0].args] == ["self.symbol_base", pc]
+    ctx.check(ok_l, "BinaryNode.pc_after:start-symbol", f"start symbol is defined at the address before the advance; found {[unparse(l) for l in labels]}")
+    ok_s = len(syms) == 1 and [unparse(a) for a in syms[0].args] == ["self.symbol_base + '__size'", "len(self.binary_content)"]
+    ctx.check(ok_s, "BinaryNode.pc_after:size-symbol", f"<base>__size is the file length; found {[unparse(s) for s in syms]}")
+
+
 def r4_text_and_binary(ctx: Ctx) -> None:
     repo = ctx.repo
     bt = repo.func(NODES, "AsciiNode.binary_text")
@@ -202,14 +214,7 @@ def r4_text_and_binary(ctx: Ctx) -> None:
     em = repo.func(NODES, "BinaryNode.emit")
     r = returns_of(em.node)
     ctx.check(len(r) == 1 and unparse(r[0].value) == "self.binary_content", "BinaryNode.emit", "emits the bytes read, unchanged")
-    pa = repo.func(NODES, "BinaryNode.pc_after")
-    pc = pa.params()[1]
-    labels = [c for c in calls_in(pa.node, suffix="add_label")]
-    syms = [c for c in calls_in(pa.node, suffix="add_symbol")]
-    ok_l = len(labels) == 1 and [unparse(a) for a in labels[0].args] == ["self.symbol_base", pc]
-    ctx.check(ok_l, "BinaryNode.pc_after:start-symbol", f"start symbol is defined at the address before the advance; found {[unparse(l) for l in labels]}")
-    ok_s = len(syms) == 1 and [unparse(a) for a in syms[0].args] == ["self.symbol_base + '__size'", "len(self.binary_content)"]
-    ctx.check(ok_s, "BinaryNode.pc_after:size-symbol", f"<base>__size is the file length; found {[unparse(s) for s in syms]}")
+    binary_symbols(ctx)
     # BinaryNode is skipped in the symbol pass but not in the label pass (its label must exist before references)
     ctx.count("binary_facts", 6)
 
